@@ -328,17 +328,24 @@ Definition parse_model_blob (c : content) : option (N * N * N) :=
   | _ => None
   end.
 
-(* Model.parse_model(path): reads the model file, then the datainfo (if present) and the dataset *)
+(* Model.parse_model(path): reads the model file, then the datainfo (if present) and the dataset.
+   Result: (key written in the model file, dataset actually loaded, data file number).  With n = 0
+   the model refers to its original dataset path outside the database: the dataset hash of the
+   model file is reported, what that path holds today is outside the model. *)
 Definition read_model (K : N) : M (N * N * N) :=
   f <- get ;;
   if is_file f (model_file K) then
     c <- read_file (model_file K) ;;
     match parse_model_blob c with
     | Some (K', h, n) =>
-        (if N.eqb n 0 then ret tt
-         else (if is_file f (dinfo n) then (read_file (dinfo n) ;; ret tt) else ret tt) ;;
-              read_file (csv n) ;; ret tt) ;;
-        ret (K', h, n)
+        if N.eqb n 0 then ret (K', h, n)
+        else
+          (if is_file f (dinfo n) then (read_file (dinfo n) ;; ret tt) else ret tt) ;;
+          dc <- read_file (csv n) ;;
+          match dc with
+          | [t; h'] => if N.eqb t T_CSV then ret (K', h', n) else fail ECorrupt
+          | _ => fail ECorrupt
+          end
     | None => fail ECorrupt
     end
   else fail EKeyError.
@@ -418,6 +425,16 @@ Fixpoint annot_find (lines : list str) (name : str) : ares :=
 
 (* LocalDirectoryContext.retrieve_annotation *)
 Definition annot_retrieve (file name : str) : ares := annot_find (split_lines (translate file)) name.
+
+(* guards of the annotation codec: no line break in the text, no line break or space in the name *)
+Definition no_nl (s : str) : bool := negb (existsb (fun ch => N.eqb ch LF || N.eqb ch CR) s).
+Definition name_ok (s : str) : bool := negb (existsb (fun ch => N.eqb ch LF || N.eqb ch CR || N.eqb ch SP) s).
+(* the file is empty or ends with a line terminator (after newline translation) *)
+Fixpoint ends_nlb (s : str) : bool :=
+  match s with
+  | [] => true
+  | c :: tl => match tl with [] => N.eqb c LF | _ => ends_nlb tl end
+  end.
 
 (* ------------------------------------------------------------------------------------------ *)
 (* the log file                                                                                *)
@@ -509,21 +526,45 @@ Definition is_text (s : str) : bool :=
 
 Inductive cell := CStr (s : str) | CNaN.
 
-(* the 'message' column of retrieve_log(): None = ParserError or a column the engine may convert
-   to numbers/booleans (not modelled) *)
+(* the 'message' column of retrieve_log() *)
+Inductive logres :=
+| LCells (l : list cell)
+| LParserError          (* pandas.errors.ParserError / EmptyDataError *)
+| LKeyError             (* the header line is not the expected one *)
+| LUnmodelled.          (* a column the engine may convert to numbers / booleans / all-NaN floats *)
+
 Definition nth_field (r : list str) (i : nat) : option str := nth_error r i.
-Definition read_log (file : str) : option (list cell) :=
+Definition header_row : list str :=
+  [[112;97;116;104]; [116;105;109;101]; [115;101;118;101;114;105;116;121]; [109;101;115;115;97;103;101]]%N.
+
+Definition read_log (file : str) : logres :=
   match csv_parse file with
-  | None => None
-  | Some [] => Some []
+  | None => LParserError
+  | Some [] => LParserError                                   (* EmptyDataError *)
   | Some (hdr :: rows) =>
-      if existsb (fun r => Nat.ltb 4 (length r)) rows then None   (* "Expected 4 fields, saw n" *)
+      if negb (list_eqb str_eqb hdr header_row) then LKeyError           (* df['path'] / df['message'] *)
+      else if existsb (fun r => Nat.ltb 4 (length r)) rows then LParserError   (* "Expected 4 fields, saw n" *)
       else
         let cells := map (fun r => match nth_field r 3 with Some s => Some (cstr s) | None => None end) rows in
         if existsb (fun c => match c with Some s => is_text s | None => false end) cells
-        then Some (map (fun c => match c with Some s => if is_na s then CNaN else CStr s | None => CNaN end) cells)
-        else match cells with [] => Some [] | _ => None end
+        then LCells (map (fun c => match c with Some s => if is_na s then CNaN else CStr s | None => CNaN end) cells)
+        else match cells with [] => LCells [] | _ => LUnmodelled end
   end.
+
+(* guards of the log codec *)
+Definition no_nul (s : str) : bool := negb (existsb (N.eqb 0) s).
+(* a field written without quotes: no separator, quote or line break *)
+Definition plain_field (s : str) : bool :=
+  negb (existsb (fun ch => N.eqb ch COMMA || N.eqb ch DQ || N.eqb ch LF || N.eqb ch CR) s).
+(* every message survives the NA filter and the C string conversion, and at least one message keeps the
+   column a string column *)
+Definition log_guard (msgs : list str) : bool :=
+  forallb (fun m => negb (is_na m) && no_nul m) msgs
+  && match msgs with [] => true | _ => existsb is_text msgs end.
+
+(* the whole log file after the given (ctxpath, date, severity, message) records *)
+Definition log_file (rows : list (str * str * str * str)) : str :=
+  log_header ++ concat (map (fun r => let '(p, d, s, m) := r in log_line p d s m) rows).
 
 (* ------------------------------------------------------------------------------------------ *)
 (* LocalDirectoryContext                                                                       *)
@@ -599,6 +640,12 @@ Definition retrieve_annotation (name : str) : M str :=
   | AIndexError => fail EIndexError
   end.
 
+(* LocalDirectoryContext.retrieve_log() *)
+Definition retrieve_log : M logres :=
+  lock log_lock ;;
+  c <- read_file log_path ;;
+  match read_log c with LParserError => fail ECorrupt | LKeyError => fail EKeyError | r => ret r end.
+
 (* Context._retrieve_me(name): (entry as read, results, description) *)
 Definition ctx_retrieve (name : str) : M (N * N * N * option content * str) :=
   f <- get ;;
@@ -621,7 +668,13 @@ Inductive witem :=
 | WAnnot (name a : str)                   (* ctx.store_annotation(name, a) *)
 | WLog (ctxpath date sev msg : str)       (* ctx.log_message(sev, msg): store_message(sev, ctxpath, date, msg) *)
 | WRetrieve (name : str)                  (* ctx.retrieve_model_entry(name) *)
-| WDbRetrieve (K : N).                    (* ctx.model_database.retrieve_model(key) *)
+| WDbRetrieve (K : N)                     (* ctx.model_database.retrieve_model(key) *)
+| WGetAnnot (name : str)                  (* ctx.retrieve_annotation(name) *)
+| WGetLog.                                (* ctx.retrieve_log() *)
+
+(* the key whose transaction an item runs (None: the item runs no transaction) *)
+Definition item_key (i : witem) : option N :=
+  match i with WStore m | WDbStore m | WMeta m _ => Some (m_key m) | _ => None end.
 
 Definition forget {A} (m : M A) : M unit := m ;; ret tt.
 
@@ -635,6 +688,8 @@ Definition item_prog (i : witem) : M unit :=
   | WLog p d s msg => store_message p d s msg
   | WRetrieve name => forget (ctx_retrieve name)
   | WDbRetrieve K => forget (db_retrieve_model K)
+  | WGetAnnot name => forget (retrieve_annotation name)
+  | WGetLog => forget retrieve_log
   end.
 
 Definition item_ops (i : witem) (f : fs) : list op := fst (item_prog i f).
